@@ -31,6 +31,8 @@ def main():
         sh("git checkout -- .", "/repo")
         shutil.rmtree("/verif/evidence", ignore_errors=True)
         shutil.copytree(bak, "/verif/evidence")
+    if isinstance(meta.get("history"), str):
+        meta["history"] = [meta["history"]]
     meta.setdefault("history", []).append({"checks_against_patch": meta.get("checks_against_patch"), "then": note})
     merged = dict(meta.get("checks_against_patch") or {})
     merged.update(checks)
